@@ -24,7 +24,9 @@ def main():
         except anchors.AnchorError as e:
             print("anchor translator failed for %s: %s" % (name, e))
     # per-property anchor generators living in the property modules
-    for p in sorted(need):
+    allprops = sorted(f[:-3].upper() for f in os.listdir(os.path.join(vlib.ROOT, "tools", "props"))
+                      if f.startswith("c") and f.endswith(".py") and f[1:3].isdigit() and len(f) == 6)
+    for p in allprops:
         try:
             mod = __import__("props." + p.lower(), fromlist=["x"])
             if hasattr(mod, "gen_anchors"):
